@@ -256,7 +256,10 @@ def render_module(d: dict) -> str:
             "from typing_extensions import List, Optional", "", ""]
     for e in d["enums"]:
         out += ["class %s(Enum):" % e, "    FIRST = 1", "    SECOND = 2", "", ""]
-    declared: set = set()
+    for u in external_targets(d):
+        # a class of the user's module that is not part of the class diagram: fields of this type are not mapped
+        out += ["class %s:" % u, "    pass", "", ""]
+    declared: set = set(external_targets(d))
     for c in d["classes"]:
         out.append("@dataclass")
         out.append("class %s%s:" % (c["name"], "(%s)" % c["base"] if c["base"] else ""))
@@ -268,6 +271,12 @@ def render_module(d: dict) -> str:
         declared.add(c["name"])
         out += ["", ""]
     return "\n".join(out)
+
+
+def external_targets(d: dict) -> list:
+    """reference targets that are not classes of the model (never handed to ORMatic)"""
+    names = {c["name"] for c in d["classes"]}
+    return sorted({a for c in d["classes"] for _, k, a in c["fields"] if k in ("r", "or") and a not in names})
 
 
 def is_split(d: dict) -> bool:
@@ -662,9 +671,11 @@ def _topo_shuffle(rng, classes):
 
 def _random_model(rng, shape: str) -> dict:
     n = rng.choice([1, 2, 2, 3, 3, 3, 4, 4, 5, 6])
-    if shape in ("mutual", "multi-coll", "deep", "long-names") and n < 2:
+    if shape in ("mutual", "multi-coll", "deep", "long-names", "hier-refs") and n < 2:
         n = 2
     if shape == "deep" and n < 3:
+        n = 3
+    if shape == "hier-refs" and n < 3 and rng.random() < 0.7:
         n = 3
     # descriptive long class / field names (always in the shape `long-names`, now and then in every other shape)
     long_names = shape == "long-names" or rng.random() < 0.12
@@ -674,7 +685,7 @@ def _random_model(rng, shape: str) -> dict:
     for i, nm in enumerate(names):
         base = None
         if i > 0:
-            if shape == "deep":
+            if shape in ("deep", "hier-refs"):
                 base = names[i - 1] if i < 4 else rng.choice(names[:i])
             elif rng.random() < 0.4:
                 base = rng.choice(names[:i])
@@ -749,6 +760,26 @@ def _random_model(rng, shape: str) -> dict:
         tgt = rng.choice(others)
         for fn in rng.sample(group, rng.choice([2, 3, 4])):
             a["fields"].append((fn, "l", tgt if rng.random() < 0.7 else rng.choice(others)))
+    if shape == "hier-refs":
+        # references INSIDE one inheritance chain: from a class to its own direct subclass (with and without a reference
+        # back), to a grandchild, from a subclass to an ancestor — every such reference is a second foreign-key path
+        # between two tables that are already joined by the inheritance key
+        def ancestors_of(c):
+            res, cur = [], by.get(c["base"]) if c["base"] else None
+            while cur is not None:
+                res.append(cur)
+                cur = by.get(cur["base"]) if cur["base"] else None
+            return res
+        pairs = [(a, c) for c in classes for a in ancestors_of(c)]  # (ancestor, descendant)
+        rng.shuffle(pairs)
+        down_names = ["kid", "heir", "lower", "deep"]
+        up_names = ["up", "elder", "upper", "root"]
+        for i, (a, c) in enumerate(pairs[:rng.choice([1, 2, 2, 3, 4])]):
+            mode = rng.choice(["down", "down", "up", "both", "both"])
+            if mode in ("down", "both"):
+                a["fields"].append((down_names[i % 4] + ("s" if i > 3 else ""), rng.choice(["r", "or", "or", "l"]), c["name"]))
+            if mode in ("up", "both"):
+                c["fields"].append((up_names[i % 4] + ("s" if i > 3 else ""), rng.choice(["r", "or", "or", "l"]), a["name"]))
     if shape == "self-ref":
         c = rng.choice(classes)
         c["fields"].append(("previous", rng.choice(["r", "or"]), c["name"]))
@@ -764,6 +795,9 @@ def _random_model(rng, shape: str) -> dict:
         if not any(f[1] in ("s", "o") and not f[0].startswith("_") for c in classes for f in c["fields"]):
             c = rng.choice(classes)
             c["fields"].insert(0, ("ident", "s", "int"))
+    if shape != "no-builtin" and rng.random() < 0.12:
+        # a field whose type is a class of the user's module that is not handed to ORMatic: nothing is mapped for it
+        rng.choice(classes)["fields"].append(("ext", rng.choice(["r", "or"]), rng.choice(["Unmapped", "Foreign"])))
     # de-duplicate names inside each class (forced fields may collide)
     for c in classes:
         seen, fs = set(), []
@@ -782,8 +816,8 @@ def _random_model(rng, shape: str) -> dict:
     return {"fut": rng.random() < 0.5, "ord": order, "ord2": order2, "enums": sorted(enums), "classes": decl}
 
 
-SHAPES = ["plain", "plain", "long-names", "deep", "mutual", "multi-coll", "self-ref", "plain", "deep", "no-builtin",
-          "plain", "self-coll"]
+SHAPES = ["plain", "hier-refs", "long-names", "deep", "mutual", "multi-coll", "self-ref", "plain", "hier-refs",
+          "no-builtin", "plain", "self-coll", "deep"]
 
 
 def _assign_parts(rng, d: dict) -> None:
@@ -859,6 +893,20 @@ NAME_FAMILY = [
 ]
 
 
+# A fixed family about references inside one inheritance chain (A <- B <- C): a class refers to its own direct subclass
+# without a reference back; to a subclass that has subclasses itself, and to a grandchild; subclasses refer to their
+# ancestors; parent and child refer to each other, by reference and by collection.
+HIER_FAMILY = [
+    "(m (fut T) (ord A B) (ord2 B A) (enums) (c A - (x s int) (kid or B)) (c B A (y s int)))",
+    "(m (fut F) (ord C A B) (ord2 B C A) (enums) (c A - (x s int) (mid r B) (leaf or C)) (c B A (y s int)) "
+    "(c C B (z s int)))",
+    "(m (fut T) (ord B C A) (ord2 A B C) (enums) (c A - (x s int)) (c B A (y s int) (up or A)) "
+    "(c C B (z s int) (top r A) (mid or B)))",
+    "(m (fut T) (ord A B C) (ord2 C B A) (enums) (c A - (x s int) (kid or B) (kids l B) (deep l C)) "
+    "(c B A (y s int) (up r A) (ups l A)) (c C B (z s int) (elder or B)))",
+]
+
+
 def _tags(d: dict, shape: str):
     tags = [shape, "classes=%d" % len(d["classes"]), "fut" if d["fut"] else "nofut"]
     longest = max([len("%sdao_%s_association" % (c["name"], n)) for c in d["classes"] for n, k, _ in c["fields"]
@@ -871,6 +919,24 @@ def _tags(d: dict, shape: str):
     tags += ["kind:" + k for k in sorted(kinds)]
     if any(c["base"] for c in d["classes"]):
         tags.append("inheritance")
+    by0 = {c["name"]: c for c in d["classes"]}
+
+    def _anc(n):
+        res, cur = set(), by0[n]["base"]
+        while cur in by0 and cur not in res:
+            res.add(cur)
+            cur = by0[cur]["base"]
+        return res
+    for c in d["classes"]:
+        for _, k, a in c["fields"]:
+            if k in ("r", "or", "l") and a in by0:
+                if c["name"] in _anc(a):
+                    tags.append("ref-to-descendant" + ("-grandchild" if by0[a]["base"] != c["name"] else ""))
+                elif a in _anc(c["name"]):
+                    tags.append("ref-to-ancestor")
+    tags = list(dict.fromkeys(tags))
+    if external_targets(d):
+        tags.append("ref-to-unmapped-class")
     if is_split(d):
         by = {c["name"]: c["part"] for c in d["classes"]}
         lazy = max((len({a for _, k, a in c["fields"] if k in ("r", "or", "l") and by.get(a, c["part"]) != c["part"]})
@@ -882,11 +948,12 @@ def _tags(d: dict, shape: str):
 def generate(rng, tier, n):
     cases = [Case(show_case(parse_case(l)), _tags(parse_case(l), "split-family"), "exhaustive") for l in SPLIT_FAMILY]
     cases += [Case(show_case(parse_case(l)), _tags(parse_case(l), "name-family"), "exhaustive") for l in NAME_FAMILY]
+    cases += [Case(show_case(parse_case(l)), _tags(parse_case(l), "hier-family"), "exhaustive") for l in HIER_FAMILY]
     for i in range(n):
         shape = SHAPES[i % len(SHAPES)] if i < 2 * len(SHAPES) else rng.choice(SHAPES)
         d = _random_model(rng, shape)
         # every third model (with at least two classes) is laid out over several modules
-        if len(d["classes"]) >= 2 and i % 3 == 1:
+        if len(d["classes"]) >= 2 and i % 3 == 1 and not external_targets(d):
             _assign_parts(rng, d)
         cases.append(Case(show_case(d), _tags(d, shape), "random"))
     return cases
